@@ -1,4 +1,5 @@
 import Csproto.Props.C14
+import Csproto.Props.C14History
 import Csproto.Bridge.Lazy
 /- axiom audit for C14 -/
 open Csproto
@@ -17,3 +18,8 @@ open Csproto
 #print axioms C13.decode_records
 #print axioms C13.decodeInto_total
 #print axioms Bridge.lazyAccessors_ok
+#print axioms Csproto.C14.step_refines
+#print axioms Csproto.C14.flat_history_refines
+#print axioms Csproto.C14.flat_history_no_panic
+#print axioms Csproto.C14.histEx_ok
+#print axioms Csproto.C14.histEx_outputs
